@@ -49,21 +49,36 @@ func (t *TTYFrontend) SetTerminal(term Terminal) {
 // Attach starts updating the provided region.
 func (t *TTYFrontend) Attach(r Region) {
 	t.mu.Lock()
-	defer t.mu.Unlock()
+	term := t.term
+	t.mu.Unlock()
 
+	if term == nil {
+		t.mu.Lock()
+		t.attachLocked(r)
+		t.mu.Unlock()
+		return
+	}
+
+	// Lock order: the terminal lock first, then mu. The terminal calls the
+	// Frontend methods below with its lock held and they take mu, so taking
+	// mu first here could deadlock against the read loop.
+	term.WithLock(func() {
+		t.mu.Lock()
+		defer t.mu.Unlock()
+		t.attachLocked(r)
+		if t.term == term { // SetTerminal may have run in between
+			t.renderRegionLocked(t.region)
+		}
+	})
+}
+
+// attachLocked records the attached region. The caller holds mu.
+func (t *TTYFrontend) attachLocked(r Region) {
 	t.region = r
 	t.attached = true
 	if !t.showCur {
 		t.showCur = true
 	}
-
-	if t.term == nil {
-		return
-	}
-
-	t.term.WithLock(func() {
-		t.renderRegionLocked(t.region)
-	})
 }
 
 // Detach stops updating the attached region.
